@@ -60,6 +60,15 @@ namespace
 		const unsigned val(::strlen(tag) > 5 ? 0x10000 : fast_atoi<unsigned>(tag));
 		return val > 0xffff ? 0x10000 : val;
 	}
+
+	/// Look at the tag of the next field without consuming it; 0x10000 if there is none or it is out of range.
+	inline unsigned peek_tag(const char *ptr, unsigned len)
+	{
+		unsigned tv(0), ii(0);
+		for (; ii < len && ii < 6 && ptr[ii] >= '0' && ptr[ii] <= '9'; ++ii)
+			tv = tv * 10 + (ptr[ii] - '0');
+		return ii && ii < 6 && ii < len && ptr[ii] == default_assignment_separator && tv <= 0xffff ? tv : 0x10000;
+	}
 }
 
 //-------------------------------------------------------------------------------------------------
@@ -116,7 +125,6 @@ unsigned MessageBase::decode(const f8String& from, unsigned s_offset, unsigned i
 		Presence::const_iterator itr(ltv > 0xffff ? _fp.get_presence().end() : _fp.get_presence().find(tv));
 		if (itr == _fp.get_presence().end())
 		{
-unknown_field:
 			if (permissive_mode)
 			{
 				if (run_offset == npos)
@@ -152,13 +160,13 @@ unknown_field:
 			if (itr->_ftype != FieldTrait::ft_Length || tv == Common_BodyLength) // this type expects next field to be data
 				break;
 
-			// only a Length field that is immediately followed by its data field (tag + 1) prefixes a fixed width value
-			unsigned ntag(0), nlen(0);
-			for (const char *nptr(dptr + s_offset); s_offset + nlen < fsize && nptr[nlen] >= '0' && nptr[nlen] <= '9' && nlen < 10; ++nlen)
-				ntag = ntag * 10 + (nptr[nlen] - '0');
-			Presence::const_iterator nitr(ntag == tv + 1u ? _fp.get_presence().find(static_cast<unsigned short>(ntag)) : _fp.get_presence().end());
+			// only a Length field that is immediately followed by a data field prefixes a fixed width value
+			const unsigned ntag(s_offset < fsize ? peek_tag(dptr + s_offset, fsize - s_offset) : 0x10000);
+			Presence::const_iterator nitr(ntag <= 0xffff ? _fp.get_presence().find(static_cast<unsigned short>(ntag)) : _fp.get_presence().end());
 			if (nitr == _fp.get_presence().end() || nitr->_ftype != FieldTrait::ft_data)
 				break;
+			if (nitr->_field_traits.has(FieldTrait::present))
+				throw DuplicateField(ntag);
 
 			const unsigned val_sz(fast_atoi<unsigned>(val));
 			if(val_sz > FIX8_MAX_FLD_LENGTH - 1)
@@ -167,12 +175,8 @@ unknown_field:
 			if (!result)
 				throw MissingMandatoryField("Unable to extract fixed width field");
 
-			const unsigned short lasttv(tv);
-			tv = fast_atoi<unsigned short>(tag);
-			if ((itr = _fp.get_presence().find(tv)) == _fp.get_presence().end())
-				goto unknown_field;
-			if (itr->_ftype != FieldTrait::ft_data || lasttv + 1 != tv) // next field must be data, tag must be 1 greater than length tag
-				break;
+			tv = static_cast<unsigned short>(ntag);
+			itr = nitr;
 			s_offset += result;
 		}
 	}
@@ -242,6 +246,25 @@ unsigned MessageBase::decode_group(GroupBase *grpbase, const unsigned short fnum
 			// nested group (check if not zero elements)
 			if (grp->_fp.is_group(tv, itr) && has_group_count(bf))
 				s_offset = grp->decode_group(grpbase, tv, from, s_offset, ignore, permissive_mode);
+
+			// a Length field immediately followed by a data field of this group prefixes a fixed width value
+			if (itr->_ftype == FieldTrait::ft_Length && s_offset < fsize)
+			{
+				const unsigned ntag(peek_tag(dptr + s_offset, fsize - s_offset));
+				Presence::const_iterator nitr(grp->_fp.get_presence().end());
+				const BaseEntry *dbe(ntag <= 0xffff ? _ctx.find_be(ntag) : nullptr);
+				if (dbe && grp->_fp.has(ntag, nitr) && nitr->_ftype == FieldTrait::ft_data && !nitr->_field_traits.has(FieldTrait::present))
+				{
+					const unsigned val_sz(fast_atoi<unsigned>(val));
+					if (val_sz > FIX8_MAX_FLD_LENGTH - 1)
+						throw f8Exception("Value size too large");
+					if (!(result = extract_element_fixed_width(dptr + s_offset, fsize - s_offset, val_sz, tag, val)))
+						throw MissingMandatoryField("Unable to extract fixed width field");
+					s_offset += result;
+					grp->add_field(ntag, nitr, ++pos, dbe->_create._do(val, dbe->_rlm, -1), false);
+					grp->_fp.set(ntag, nitr, FieldTrait::present);
+				}
+			}
 		}
 
 		const unsigned short missing(grp->_fp.find_missing());
